@@ -7,6 +7,7 @@ from __future__ import annotations
 
 import itertools
 import threading
+import time
 
 from wdverif import apireal, monitors
 from wdverif.env import osledger
@@ -33,6 +34,7 @@ WALL_CAP = {"quick": 170, "thorough": 3000}
 
 ALPHA = [("schedule", "p1"), ("schedule", "p2"), ("schedule", "missing"), ("unschedule", "p2"), ("unschedule_all", None), ("rm", "p2"),
          ("touch", "p1"), ("start", None), ("stop", None), ("join", None)]
+ALPHA_X = ALPHA + [("mvout", "p2"), ("mvout", "p2"), ("touch", "p2")]
 
 
 def valid(seq):
@@ -52,12 +54,12 @@ def valid(seq):
 
 
 def run_seq(b: Batch, kind, seq, led, ctx):
-    c = apireal.Case(kind, led)
+    c = apireal.Case(kind, led, timeout=ctx.get("timeout"))
     rm_p2 = False
     for op, arg in seq:
         if op == "rm":
             rm_p2 = True
-        if op == "touch" and arg == "p2" and rm_p2:
+        if op in ("touch", "mvout") and arg == "p2" and rm_p2:
             continue
         if op == "start" and c.started:
             continue
@@ -74,7 +76,7 @@ def run_seq(b: Batch, kind, seq, led, ctx):
             if rec2["status"] == "hung":
                 break
     out = c.finish()
-    judge(b, out, c.log, {"kind": kind, "seq": [list(x) for x in seq]}, {"kind": "seq1", "emitter": kind, "seq": [list(x) for x in seq]})
+    judge(b, out, c.log, {"kind": kind, "seq": [list(x) for x in seq]}, {"kind": "seq1", "emitter": kind, "seq": [list(x) for x in seq], "timeout": ctx.get("timeout")})
     nlib = sum(1 for r in c.log if r["op"] == "start" and r["status"] == "ok")
     if nlib and len(c.log) >= 3:
         b.nontrivial([kind, seq])
@@ -94,6 +96,12 @@ def judge(b: Batch, out, log, wit, rs, hold=None):
         else:
             b.inconc(f"C06: {h['call']} exceeded the watchdog but stacks were still changing")
         return
+    if out.get("threads_alive_at_return") and not out["threads_alive"]:
+        b.violation("thread-alive-when-stop-join-returned", f"library thread(s) still running 50 ms after the final stop() (+ join()) had returned (they ended later): {[t['thread'] for t in out['threads_alive_at_return']]}",
+                    witness=dict(wit, threads=out["threads_alive_at_return"]), replay_spec=rs)
+    acs = out.get("after_completed_stop")
+    if acs is not None and acs["threads"] and not out["threads_alive"]:
+        b.violation("thread-alive-after-completed-stop", f"a stop() of the started observer had returned and all calls had ended, yet {acs['threads']} kept running until a further stop()", witness=wit, replay_spec=rs)
     if out["threads_alive"]:
         b.violation("thread-alive-after-stop-join", f"library thread(s) still alive after stop()+join(): {[t['thread'] for t in out['threads_alive']]}",
                     witness=dict(wit, threads=out["threads_alive"]), replay_spec=rs)
@@ -105,6 +113,79 @@ def judge(b: Batch, out, log, wit, rs, hold=None):
             b.add("side_observation_C07_exceptions", f"{x['thread']}: {x['exc'][:100]} || {x['tb'][-300:]} || {[ (r['op'], r['arg']) for r in log]}"[:900])
     if out["fds_open"] or out["ledger_violations"]:
         b.count("side_observation_C12_descriptor")
+
+
+def run_flood(b: Batch, variant, n_events=12000):
+    """A burst of events far larger than any reasonable queue bound while the handler is slow / blocked, then stop() from an
+    application thread (variant 0) or from inside the callback (variant 1): nothing may block for ever."""
+    from watchdog.events import FileModifiedEvent
+    from watchdog.observers.api import BaseObserver
+
+    from wdverif import apirig
+
+    plan = apirig.FaultPlan(())
+    reg = []
+    obs = BaseObserver(apirig.make_scripted_emitter(plan, reg), timeout=0.02)
+    gate = threading.Event()
+    seen = []
+
+    class H:
+        def dispatch(self, event):
+            seen.append(event)
+            if len(seen) == 1:
+                if variant == 1:
+                    gate.wait(10)
+                    obs.stop()
+                else:
+                    gate.wait(10)
+
+    threads0 = set(threading.enumerate())
+    obs.schedule(H(), "/flood", recursive=False)
+    obs.start()
+    em = reg[0]
+    for i in range(n_events):
+        em.script.put(FileModifiedEvent(f"/flood/e{i:06d}"))
+    # let the emitter push as much as it can while the dispatcher sits in the first callback
+    end = time.monotonic() + 6
+    while time.monotonic() < end and not em.script.empty() and len(em.produced) < n_events:
+        n0 = len(em.produced)
+        time.sleep(0.05)
+        if len(em.produced) == n0 and n0 > 0:
+            break  # the emitter stopped making progress (blocked in a full queue?)
+    b.case()
+    b.count("cases_judged")
+    b.count("flood_cases")
+    b.count("flood_events_queued", len(em.produced))
+    rs = {"kind": "flood1", "variant": variant}
+    gate.set()
+    log = []
+    hung = None
+    if variant == 0:
+        st, _v, th = monitors.call_with_watchdog(obs.stop, 12.0, name="call-stop")
+        log.append({"op": "stop", "status": st})
+        if st == "hung":
+            hung = ("stop", th)
+    if hung is None:
+        st, _v, th = monitors.call_with_watchdog(obs.join, 12.0, name="call-join")
+        log.append({"op": "join", "status": st})
+        if st == "hung":
+            hung = ("join", th)
+    if hung is not None:
+        libs = [t for t in threading.enumerate() if apireal.is_library_thread(t) and t not in threads0]
+        verdict, stacks = monitors.classify_hang([hung[1]] + libs, interval=0.5, samples=3)
+        if verdict == "deadlock":
+            b.violation(f"deadlock:{hung[0]}", f"{hung[0]}() did not return after a burst of {len(em.produced)} queued events (variant {variant}); threads parked with identical stacks",
+                        witness={"variant": variant, "stacks": stacks, "queued": len(em.produced)}, replay_spec=rs)
+        else:
+            b.inconc("C06 flood: watchdog fired but stacks were changing")
+        for e in reg:
+            e.stop()
+        return
+    new = [t for t in threading.enumerate() if t not in threads0 and apireal.is_library_thread(t)]
+    alive = monitors.wait_threads_gone(new, grace=5.0)
+    if alive:
+        b.violation("thread-alive-after-stop-join", f"after the flood: {[monitors.thread_desc(t) for t in alive]}", witness={"variant": variant}, replay_spec=rs)
+    b.nontrivial(["flood", variant, len(em.produced) // 1000])
 
 
 def run_multi(b: Batch, kind, r, led):
@@ -217,8 +298,10 @@ def plan(tier, seed, jobs):
         for j in range(4):
             specs.append({"kind": "holds", "emitter": "inotify", "seed": seed, "j": j, "of": 4, "budget_s": 60})
         specs.append({"kind": "unmount", "n": 6})
+        specs.append({"kind": "flood", "n": 2})
     else:
         specs.append({"kind": "unmount", "n": 60})
+        specs.append({"kind": "flood", "n": 20})
         for j in range(jobs * 2):
             specs.append({"kind": "seqs", "emitter": "inotify", "n": 8000, "seed": seed, "j": j, "budget_s": 200, "enum": True, "of": jobs * 2})
         for j in range(jobs):
@@ -251,12 +334,13 @@ def run_batch(spec):
         for n in range(spec["n"]):
             if b.expired():
                 break
-            seq = [r.choice(ALPHA) for _ in range(r.randint(2, 7))]
+            seq = [r.choice(ALPHA_X if n % 3 == 0 else ALPHA) for _ in range(r.randint(2, 7))]
             if r.random() < 0.7 and not any(op == "start" for op, _ in seq):
                 seq.insert(r.randrange(len(seq)), ("start", None))
             if not valid(seq):
                 continue
-            out = run_seq(b, spec["emitter"], seq, led, {})
+            # a third of the cases with a short observer timeout (the emitters' own pacing is then far slower than the timeout)
+            out = run_seq(b, spec["emitter"], seq, led, {"timeout": 0.05 if n % 3 == 0 else None})
             if n == 0:
                 b.sample({"emitter": spec["emitter"], "sequence": [list(x) for x in seq]})
     elif k == "multi":
@@ -280,7 +364,7 @@ def run_batch(spec):
                     if i % spec["of"] != spec["j"] or b.expired():
                         continue
                     closer = pt[0].startswith("wdv-call-")
-                    for partner in (["touch", "rmroot", "none"] if closer else PARTNERS):
+                    for partner in (["touch", "rmroot", "none", "schedule"] if closer else PARTNERS):
                         nth = r.choice([1, 1, 2])
                         ev = r.choice([False, True, "mkdirs"])
                         out = apireal.hold_case(ins, led, spec["emitter"], pt, nth, partner, ev)
@@ -290,13 +374,18 @@ def run_batch(spec):
                         if out["reached"]:
                             b.add("hold_points_reached", f"{pt[0]}:{pt[1]}:{pt[2]}")
                             b.nontrivial(["hold", list(map(str, pt)), nth, partner, ev])
+    elif k == "flood":
+        for n in range(spec["n"]):
+            run_flood(b, n % 2, 12000 if n < 2 else 12000 * (1 + n % 5))
+    elif k == "flood1":
+        run_flood(b, spec["variant"])
     elif k == "unmount":
         for n in range(spec["n"]):
             run_unmount(b, led, n % 3)
     elif k == "unmount1":
         run_unmount(b, led, spec["variant"])
     elif k == "seq1":
-        run_seq(b, spec["emitter"], [tuple(x) for x in spec["seq"]], led, {})
+        run_seq(b, spec["emitter"], [tuple(x) for x in spec["seq"]], led, {"timeout": spec.get("timeout")})
     elif k == "hold1":
         ins = apireal.instr_for_pipeline(1)
         with ins:
